@@ -7,6 +7,7 @@
   py2coq.py classes    <repo> <out.v>   class-level cost / deriv / hess of the simple atomic devices (graceful fallback per method)
   py2coq.py thermal    <repo> <out.v>   tdevice.py: cost / costv / deriv / r2t / _make_t_base (graceful fallback per method)
   py2coq.py deviceset  <repo> <out.v>   deviceset.py: one set level over abstract children (graceful fallback per method)
+  py2coq.py functions  <repo> <out.v>   functions.py combinators over abstract operands (graceful fallback per method)
   py2coq.py projection <repo> <out.v>   projection/projection.py: every region method incl. the Dykstra loop (graceful fallback per method)
 
 Anything outside the whitelist raises Unsupported naming the file, line and node: the caller treats that
@@ -253,6 +254,9 @@ def main(argv):
     elif what == 'deviceset':
       from deviceset_tx import gen_deviceset
       text = gen_deviceset(repo)
+    elif what == 'functions':
+      from functions_tx import gen_functions
+      text = gen_functions(repo)
     elif what == 'projection':
       from stmt_tx import gen_projection
       text = gen_projection(repo)
